@@ -1,1 +1,203 @@
-From Ont Require Import Model.Auth.
+(** C41 — Role-based contract authorization grants exactly the assigned functions.
+
+    "The auth contract confirms that an identity may call a function exactly when the identity
+     proved control of its key and holds, directly or through an unexpired delegation, a role to
+     which that function is assigned."  Quantifier: all histories of admin init/transfer, role
+     assignment, delegation and withdrawal, with arbitrary times.
+
+    Model: Model/Auth.v (built on Gen/AuthConsts.v, regenerated from auth.go/param.go on every
+    run), vocabulary: Model/AuthSpec.v.  [valid_id] is account.VerifyID, the per-event [e_sig] is
+    the ONT ID contract's verifySignature (identity proof), both arbitrary.
+
+    Result: the statement holds with the code's reading of "holds" ([may_call]) for ALL histories
+    (c41_verify_token_exact, c41_verify_token_events).  With the property text's reading — the
+    admin assigned the role in an accepted assignOntIDsToRole ([may_call_text]) — the "only if"
+    half holds for all histories (c41_grant_sound), the "if" half is REFUTED (c41_text_refuted:
+    an accepted assignment is silently skipped when the assignee holds the role through a running
+    delegation) and holds on every history without such a skipped assignment (c41_text_partial). *)
+From Coq Require Import List Bool NArith.
+Import ListNotations.
+From Ont Require Import Lib.Bytes Gen.AuthConsts Model.Auth Model.AuthSpec Proofs.C41.
+Local Open Scope N_scope.
+
+(** Every reachable state keeps the stored shape: admin-assigned tokens have level
+    ADMIN_TOKEN_LEVEL and expiry AUTH_FUTURE; per identity at most one delegation record per role,
+    each with 0 < level < DELEGATOR_LEVEL, expiry < AUTH_FUTURE and a delegator that holds the role
+    by admin assignment. *)
+Theorem c41_reachable_invariant : forall valid_id h, Inv (run valid_id h).
+Proof. exact run_inv. Qed.
+Print Assumptions c41_reachable_invariant.
+
+(** A call that fails or answers FALSE changes nothing. *)
+Theorem c41_refused_call_changes_nothing : forall valid_id s e,
+  fst (step valid_id s e) <> RTrue -> snd (step valid_id s e) = s.
+Proof. exact step_refused_same. Qed.
+Print Assumptions c41_refused_call_changes_nothing.
+
+(** verifyToken after ANY history (no assumption on times), in terms of what is stored. *)
+Theorem c41_verify_token_exact : forall valid_id h e c caller fn k,
+  verify_token (run valid_id h) e c caller fn k = RTrue <->
+  e_sig e caller k = SigOk /\
+  exists r, fn_assigned (run valid_id h) c r fn = true /\
+    ((holds_direct (run valid_id h) c caller r = true /\ e_now e <= AUTH_FUTURE) \/
+     (exists d, deleg_of (run valid_id h) c caller r = Some d /\ e_now e <= d_expire d)).
+Proof. exact verify_token_run. Qed.
+Print Assumptions c41_verify_token_exact.
+
+(** What is stored, in terms of the events of the history. *)
+Theorem c41_fn_given_events : forall valid_id h c r f,
+  fn_assigned (run valid_id h) c r f = true <-> fn_given valid_id h c r f.
+Proof. exact fn_given_iff. Qed.
+Print Assumptions c41_fn_given_events.
+
+Theorem c41_role_assigned_events : forall valid_id h c id r,
+  holds_direct (run valid_id h) c id r = true <-> role_assigned valid_id h c id r.
+Proof. exact role_assigned_iff. Qed.
+Print Assumptions c41_role_assigned_events.
+
+Theorem c41_delegation_events : forall valid_id h c id r from exp lvl, times_u32 h ->
+  (deleg_of (run valid_id h) c id r = Some (mkDel from (mkTok r exp lvl)) <->
+   deleg_in_force valid_id h c id r from exp lvl).
+Proof. exact deleg_events. Qed.
+Print Assumptions c41_delegation_events.
+
+Theorem c41_admin_events : forall valid_id h c a,
+  admin_of (run valid_id h) c = Some a <->
+  exists h1 e h2, h = h1 ++ e :: h2 /\ ev_sets_admin valid_id (run valid_id h1) e c a /\
+    forall h2a e' h2b, h2 = h2a ++ e' :: h2b ->
+      ~ exists a', ev_sets_admin valid_id (run valid_id (h1 ++ e :: h2a)) e' c a'.
+Proof. exact admin_events. Qed.
+Print Assumptions c41_admin_events.
+
+(** MAIN: over all histories (times are uint32), verifyToken confirms exactly when the identity
+    proof succeeded for that call and the caller may call the function: some role to which the
+    function was given by the then-admin is held through an admin assignment that was stored
+    (until AUTH_FUTURE) or through the delegation in force (until its expiry, inclusive). *)
+Theorem c41_verify_token_events : forall valid_id h e c caller fn k, times_u32 h ->
+  (verify_token (run valid_id h) e c caller fn k = RTrue <->
+   e_sig e caller k = SigOk /\ may_call valid_id h (e_now e) c caller fn).
+Proof. exact verify_token_events. Qed.
+Print Assumptions c41_verify_token_events.
+
+(** The property text's reading. *)
+Definition c41_text_statement : Prop :=
+  forall valid_id h e c caller fn k, times_u32 h ->
+    (verify_token (run valid_id h) e c caller fn k = RTrue <->
+     e_sig e caller k = SigOk /\ may_call_text valid_id h (e_now e) c caller fn).
+
+(** Soundness half, all histories: nothing is granted without proof of identity, an assigned
+    function, and a role held by admin assignment or by a delegation in force that has not
+    expired and was not withdrawn. *)
+Theorem c41_grant_sound : forall valid_id h e c caller fn k, times_u32 h ->
+  verify_token (run valid_id h) e c caller fn k = RTrue ->
+  e_sig e caller k = SigOk /\ may_call_text valid_id h (e_now e) c caller fn.
+Proof. exact verify_token_sound_text. Qed.
+Print Assumptions c41_grant_sound.
+
+(** Partial: the text's statement on histories without a silently skipped assignment. *)
+Theorem c41_text_partial : forall valid_id h e c caller fn k,
+  times_u32 h -> no_skipped_assignment valid_id h ->
+  (verify_token (run valid_id h) e c caller fn k = RTrue <->
+   e_sig e caller k = SigOk /\ may_call_text valid_id h (e_now e) c caller fn).
+Proof. exact verify_token_text_partial. Qed.
+Print Assumptions c41_text_partial.
+
+(** Witness history of the finding (replayed on the implementation by the driver on every run,
+    class assign-skipped-live-delegation). *)
+Definition w_c : bytes := [1].
+Definition w_admin : bytes := [10].
+Definition w_holder : bytes := [11].
+Definition w_user : bytes := [13].
+Definition w_r0 : bytes := [100].
+Definition w_r1 : bytes := [101].
+Definition w_f0 : bytes := [200].
+Definition w_sig (who : bytes) : bytes -> N -> sigres :=
+  fun id k => if (bytes_eqb id who && (k =? 1))%bool then SigOk else SigErr.
+Definition w_ev (t : N) (who : bytes) (o : op) : event := mkEv (mkEnv t (w_sig who)) o.
+Definition w_prefix : list event :=
+  [ w_ev 1000 [] (OInit w_c w_admin);
+    w_ev 1001 w_admin (OAssignFuncs w_c w_admin w_r0 [w_f0] 1);
+    w_ev 1002 w_admin (OAssignIds w_c w_admin w_r0 [w_holder] 1);
+    w_ev 1003 w_admin (OAssignIds w_c w_admin w_r1 [w_user] 1);
+    w_ev 1004 w_holder (ODelegate w_c w_holder w_user w_r0 100 1 1) ].
+(** the admin now assigns r0 to the user, who holds r0 by the running delegation *)
+Definition w_skipped : event := w_ev 1006 w_admin (OAssignIds w_c w_admin w_r0 [w_user] 1).
+Definition w_hist : list event := w_prefix ++ [w_skipped].
+Definition w_valid : bytes -> bool := fun _ => true.
+
+Lemma w_times : times_u32 w_hist.
+Proof. repeat constructor. Qed.
+
+Theorem c41_text_refuted : ~ c41_text_statement.
+Proof.
+  intro H.
+  specialize (H w_valid w_hist (mkEnv 1105 (w_sig w_user)) w_c w_user w_f0 1 w_times).
+  assert (R : verify_token (run w_valid w_hist) (mkEnv 1105 (w_sig w_user)) w_c w_user w_f0 1 = RFalse)
+    by (vm_compute; reflexivity).
+  rewrite R in H. destruct H as [_ H].
+  assert (X : RFalse = RTrue); [apply H; clear H|discriminate X].
+  split; [reflexivity|]. exists w_r0. split.
+  - exists [w_ev 1000 [] (OInit w_c w_admin)], (w_ev 1001 w_admin (OAssignFuncs w_c w_admin w_r0 [w_f0] 1)),
+      [ w_ev 1002 w_admin (OAssignIds w_c w_admin w_r0 [w_holder] 1);
+        w_ev 1003 w_admin (OAssignIds w_c w_admin w_r1 [w_user] 1);
+        w_ev 1004 w_holder (ODelegate w_c w_holder w_user w_r0 100 1 1); w_skipped ].
+    split; [reflexivity|]. exists w_admin, [w_f0], 1.
+    split; [reflexivity|]. split; [discriminate|]. split; [split; vm_compute; reflexivity|].
+    split; [left; reflexivity|discriminate].
+  - left. split; [|vm_compute; discriminate].
+    exists w_prefix, w_skipped, []. split; [reflexivity|].
+    exists w_admin, [w_user], 1.
+    split; [reflexivity|]. split; [discriminate|]. split; [reflexivity|].
+    split; [split; vm_compute; reflexivity|left; reflexivity].
+Qed.
+Print Assumptions c41_text_refuted.
+
+(** Authorisation of delegations: the delegator of a delegation in force had been assigned the
+    role by the admin, handed on a strictly lower positive level and a strictly earlier expiry. *)
+Theorem c41_delegator_was_assigned : forall valid_id h c id r from exp lvl,
+  deleg_in_force valid_id h c id r from exp lvl ->
+  exists h1 e h2, h = h1 ++ e :: h2 /\ role_assigned valid_id h1 c from r /\
+                  exp < AUTH_FUTURE /\ 0 < lvl /\ lvl < ADMIN_TOKEN_LEVEL.
+Proof. exact delegator_was_assigned. Qed.
+Print Assumptions c41_delegator_was_assigned.
+
+(** Levels limit re-delegation: whoever holds a role only through a delegation cannot delegate. *)
+Theorem c41_no_redelegation : forall valid_id s e c from to r p l k,
+  Inv s -> ev_now e < 4294967296 -> ev_op e = ODelegate c from to r p l k ->
+  holds_direct s c from r = false -> fst (step valid_id s e) <> RTrue.
+Proof. exact delegate_needs_admin_assignment. Qed.
+Print Assumptions c41_no_redelegation.
+
+(** Observation (DESIGN §5 C41): at now = expireTime verifyToken still confirms the delegate,
+    while getAuthToken — used by delegate, withdraw and assignOntIDsToRole — already reports
+    that the identity does not hold the role. *)
+Theorem c41_boundary_now_equals_expire : forall valid_id h e c id r from exp lvl fn k,
+  times_u32 h -> deleg_in_force valid_id h c id r from exp lvl -> fn_given valid_id h c r fn ->
+  e_sig e id k = SigOk -> e_now e = exp ->
+  verify_token (run valid_id h) e c id fn k = RTrue /\
+  (holds_direct (run valid_id h) c id r = false ->
+   get_auth_token (run valid_id h) (e_now e) c id r = None).
+Proof. exact boundary_now_equals_expire. Qed.
+Print Assumptions c41_boundary_now_equals_expire.
+
+(** Non-vacuity: on the witness prefix the delegate is confirmed while the delegation runs
+    (so [may_call] and [deleg_in_force] are inhabited), up to and including the expiry second,
+    not afterwards, not without the identity proof, not for an unassigned function, and not after
+    the delegator's withdrawal. *)
+Example c41_nonvacuous :
+  times_u32 w_prefix /\
+  may_call w_valid w_prefix 1050 w_c w_user w_f0 /\
+  verify_token (run w_valid w_prefix) (mkEnv 1050 (w_sig w_user)) w_c w_user w_f0 1 = RTrue /\
+  verify_token (run w_valid w_prefix) (mkEnv 1104 (w_sig w_user)) w_c w_user w_f0 1 = RTrue /\
+  verify_token (run w_valid w_prefix) (mkEnv 1105 (w_sig w_user)) w_c w_user w_f0 1 = RFalse /\
+  verify_token (run w_valid w_prefix) (mkEnv 1050 (w_sig w_holder)) w_c w_user w_f0 1 = RErr /\
+  verify_token (run w_valid w_prefix) (mkEnv 1050 (w_sig w_user)) w_c w_user [201] 1 = RFalse /\
+  verify_token (run w_valid (w_prefix ++ [w_ev 1010 w_holder (OWithdraw w_c w_holder w_user w_r0 1)]))
+               (mkEnv 1050 (w_sig w_user)) w_c w_user w_f0 1 = RFalse.
+Proof.
+  assert (T : times_u32 w_prefix) by (repeat constructor).
+  assert (V : verify_token (run w_valid w_prefix) (mkEnv 1050 (w_sig w_user)) w_c w_user w_f0 1 = RTrue)
+    by (vm_compute; reflexivity).
+  split; [exact T|]. split; [|repeat split; vm_compute; reflexivity].
+  apply (c41_verify_token_events w_valid w_prefix _ _ _ _ _ T) in V. exact (proj2 V).
+Qed.
